@@ -347,7 +347,7 @@ package loader
 //@   ensures[C01] (err != nil) ==> result.0 == nil && result.1 == nil
 
 //@ func LoadConfigFiles
-//@   except index#4, index#5, nilderef#10, nilderef#9, nilfunc#1, precondition#10, precondition#12, precondition#8 : undischarged on the reference tree (engine limit or missing callee contract), not claimed
+//@   except index#4, index#5, nilderef#10, nilderef#9, nilfunc#1 : undischarged on the reference tree (engine limit or missing callee contract), not claimed
 //@   nopanic[C01]
 //@   ensures[C01] len(configFiles) < 1 ==> err != nil
 //@   ensures[C01] err == nil ==> result.0 != nil
@@ -374,7 +374,7 @@ package loader
 //@   ensures[C01] old(len(configDetails.ConfigFiles)) < 1 ==> err != nil
 
 //@ func toOptions
-//@   except nilfunc#1, precondition#10, precondition#12, precondition#8 : undischarged on the reference tree (engine limit or missing callee contract), not claimed
+//@   except nilfunc#1 : undischarged on the reference tree (engine limit or missing callee contract), not claimed
 //@   nopanic[C01]
 //@   requires configDetails != nil
 //@?   ensures[C01] result != nil && result.Interpolate != nil   // undischarged on the reference tree: not claimed
@@ -416,7 +416,6 @@ package loader
 //@     decreases[C01] len(loaded) - rangeindex
 
 //@ func modelToProject
-//@   except nilderef#14, nilderef#16, precondition#2 : undischarged on the reference tree (engine limit or missing callee contract), not claimed
 //@   nopanic[C01]
 //@   requires dict != nil && opts != nil
 //@?   ensures[C01] (err == nil) != (result.0 == nil)   // undischarged on the reference tree: not claimed
